@@ -25,10 +25,7 @@ POSITION = "core::iter::traits::iterator::Iterator::position"
 
 
 def newline_closure(ps, lib, t):
-    if t[0] != "closure":
-        return False
-    node = ps.closures.get(t[1])
-    return node is not None and bytecls.denote_closure(node, lib) == frozenset([10])
+    return bytecls.denote_term(t, ps, lib) == frozenset([10])
 
 
 def skips_message(v, inp, x, ps, lib):
@@ -204,8 +201,16 @@ def rule_rest(ck, lib):
         # inventory by type: byte buffers and usize offsets only (their values are pinned by the C07-K rules); anything
         # else - a flag, an Option, an error value - would be memory of earlier messages
         tys = {}
-        pb = lib.body(PROCESS)
-        for xn in hir.walk(pb["value"]):
+        # the loop-carried locals may live in a private helper that process delegates to (evaluated in place)
+        owners = {i.rsplit(".", 1)[0] for i in allv}
+        nodes = []
+        for b_ in lib.facts["bodies"]:
+            if b_["def"] in owners or b_["def"] == PROCESS:
+                nodes += list(hir.walk(b_["value"]))
+                for p_ in b_["params"]:
+                    if p_.get("k") == "Bind" and p_.get("id") in allv:
+                        tys[p_["id"]] = p_.get("ty", "?").replace("&mut ", "").replace("&", "")
+        for xn in nodes:
             if xn.get("k") == "Block":
                 for st_ in xn["stmts"]:
                     if st_["k"] == "Let":
